@@ -118,6 +118,52 @@ fn options_and_results() {
     }
 }
 
+// ---- every argument expression of the option:: / result:: macros is evaluated exactly once (std's methods
+// receive values); observed = (result, number of evaluations of the argument expressions)
+/// records *which* operand expression ran, in order: the trace of `f(a(), b())` is 12
+fn tkl<T>(c: &Cell<u32>, label: u32, v: T) -> T { c.set(c.get() * 10 + label); v }
+fn tk<T>(c: &Cell<u32>, v: T) -> T { tkl(c, 1, v) }
+fn argument_expressions() {
+    let opts: [Option<u32>; 3] = [None, Some(2), Some(5)];
+    for o in opts {
+        chk!("option::unwrap_or!(args once)", counted!(c, option::unwrap_or!(tk(&c, o), tkl(&c, 2, 7))), counted!(c, tk(&c, o).unwrap_or(tkl(&c, 2, 7))));
+        chk!("option::unwrap_or_else!(arg once)", counted!(c, option::unwrap_or_else!(tk(&c, o), || 7)), counted!(c, tk(&c, o).unwrap_or_else(|| 7)));
+        chk!("option::ok_or!(args once)", counted!(c, option::ok_or!(tk(&c, o), tkl(&c, 2, "e"))), counted!(c, tk(&c, o).ok_or(tkl(&c, 2, "e"))));
+        chk!("option::ok_or_else!(arg once)", counted!(c, option::ok_or_else!(tk(&c, o), || 1u8)), counted!(c, tk(&c, o).ok_or_else(|| 1u8)));
+        chk!("option::map!(arg once)", counted!(c, option::map!(tk(&c, o), |x| x + 1)), counted!(c, tk(&c, o).map(|x| x + 1)));
+        chk!("option::map!(arg once, fn)", counted!(c, option::map!(tk(&c, o), dbl)), counted!(c, tk(&c, o).map(dbl)));
+        chk!("option::and_then!(arg once)", counted!(c, option::and_then!(tk(&c, o), |x| if x > 2 { Some(x) } else { None })), counted!(c, tk(&c, o).and_then(|x| if x > 2 { Some(x) } else { None })));
+        chk!("option::or_else!(arg once)", counted!(c, option::or_else!(tk(&c, o), || Some(9))), counted!(c, tk(&c, o).or_else(|| Some(9))));
+        chk!("option::filter!(arg once)", counted!(c, option::filter!(tk(&c, o), |x| *x > 2)), counted!(c, tk(&c, o).filter(|x| *x > 2)));
+        chk!("option::flatten!(arg once)", counted!(c, option::flatten!(tk(&c, Some(o)))), counted!(c, tk(&c, Some(o)).flatten()));
+        chk!("option::copied(arg once)", counted!(c, option::copied(tk(&c, o.as_ref()))), counted!(c, tk(&c, o.as_ref()).copied()));
+    }
+    let ress: [Result<u32, u8>; 3] = [Ok(0), Ok(4), Err(3)];
+    for r in ress {
+        chk!("result::unwrap_or!(args once)", counted!(c, result::unwrap_or!(tk(&c, r), tkl(&c, 2, 7))), counted!(c, tk(&c, r).unwrap_or(tkl(&c, 2, 7))));
+        chk!("result::unwrap_or_else!(arg once)", counted!(c, result::unwrap_or_else!(tk(&c, r), |e| e as u32)), counted!(c, tk(&c, r).unwrap_or_else(|e| e as u32)));
+        chk!("result::unwrap_err_or_else!(arg once)", counted!(c, result::unwrap_err_or_else!(tk(&c, r), |v| v as u8)), counted!(c, match tk(&c, r) { Ok(v) => v as u8, Err(e) => e }));
+        chk!("result::ok!(arg once)", counted!(c, result::ok!(tk(&c, r))), counted!(c, tk(&c, r).ok()));
+        chk!("result::err!(arg once)", counted!(c, result::err!(tk(&c, r))), counted!(c, tk(&c, r).err()));
+        chk!("result::map!(arg once)", counted!(c, result::map!(tk(&c, r), |x| x + 1)), counted!(c, tk(&c, r).map(|x| x + 1)));
+        chk!("result::map_err!(arg once)", counted!(c, result::map_err!(tk(&c, r), |e| e + 1)), counted!(c, tk(&c, r).map_err(|e| e + 1)));
+        chk!("result::and_then!(arg once)", counted!(c, result::and_then!(tk(&c, r), |x| if x > 0 { Ok(x) } else { Err(0u8) })), counted!(c, tk(&c, r).and_then(|x| if x > 0 { Ok(x) } else { Err(0u8) })));
+        chk!("result::or_else!(arg once)", counted!(c, result::or_else!(tk(&c, r), |e| if e > 5 { Ok(1u32) } else { Err(e) })), counted!(c, tk(&c, r).or_else(|e| if e > 5 { Ok(1u32) } else { Err(e) })));
+        fn kt(c: &Cell<u32>, r: Result<u32, u8>) -> Result<u32, u8> { let x = konst::try_!(tk(c, r)); Ok(x + 1) }
+        fn st(c: &Cell<u32>, r: Result<u32, u8>) -> Result<u32, u8> { let x = tk(c, r)?; Ok(x + 1) }
+        chk!("try_!(arg once)", counted!(c, kt(&c, r)), counted!(c, st(&c, r)));
+        fn kr(c: &Cell<u32>, r: Result<u32, u8>) -> Result<u32, u8> { let mut x = 0u32; konst::try_rebind!{x = tk(c, r)}; Ok(x) }
+        chk!("try_rebind!(arg once)", counted!(c, kr(&c, r)), counted!(c, st(&c, r).map(|x| x - 1)));
+        fn ki(c: &Cell<u32>, r: Result<u32, u8>) -> u32 { let mut x = 99u32; konst::rebind_if_ok!{x = tk(c, r)}; x }
+        chk!("rebind_if_ok!(arg once)", counted!(c, ki(&c, r)), counted!(c, { let mut x = 99u32; if let Ok(v) = tk(&c, r) { x = v; } x }));
+    }
+    for o in [None, Some(3u32)] {
+        fn ko(c: &Cell<u32>, o: Option<u32>) -> Option<u32> { let x = konst::try_opt!(tk(c, o)); Some(x + 1) }
+        fn so(c: &Cell<u32>, o: Option<u32>) -> Option<u32> { let x = tk(c, o)?; Some(x + 1) }
+        chk!("try_opt!(arg once)", counted!(c, ko(&c, o)), counted!(c, so(&c, o)));
+    }
+}
+
 // ---- try_! / try_opt! vs `?`
 fn k_try(r: Result<u32, String>) -> Result<u32, String> { let x = konst::try_!(r); Ok(x.wrapping_add(1)) }
 fn s_try(r: Result<u32, String>) -> Result<u32, String> { let x = r?; Ok(x.wrapping_add(1)) }
@@ -190,12 +236,10 @@ fn minmax() {
         chk!(format!("min_by!(reversed) {}", nm), konst::min_by!(a, b, |l, r| konst::const_cmp!(r.key, l.key)).id, std::cmp::min_by(a, b, |l, r| r.key.cmp(&l.key)).id);
         chk!(format!("max_by_key!(negated) {}", nm), konst::max_by_key!(a, b, |x| 10 - x.key).id, std::cmp::max_by_key(a, b, |x| 10 - x.key).id);
     }}
-    // arguments that are expressions with a side effect (a counted call): std's functions receive each
-    // argument value once, so the macro must evaluate each argument expression exactly once; observed =
-    // (syntactic position and key of the returned argument, number of evaluations). The order in which the
-    // two expressions are evaluated is not part of the property and is not observed (max_by_key! evaluates
-    // its second argument first).
-    fn pop(q: &Cell<u32>, ks: &[u8; 4], pos: u8) -> Keyed { q.set(q.get() + 1); Keyed { key: ks[pos as usize], id: 10 + pos } }
+    // arguments that are expressions over a stateful source (a queue that is popped): std's functions receive
+    // the values of their argument expressions, each evaluated exactly once, left to right - like any function
+    // call; observed = (id and key of the returned argument, number of pops)
+    fn pop(q: &Cell<u32>, ks: &[u8; 4], _pos: u8) -> Keyed { let i = q.get(); q.set(i + 1); Keyed { key: ks[i as usize % 4], id: 10 + i as u8 } }
     for k0 in 0..3u8 { for k1 in 0..3u8 { for k2 in 0..1u8 {
         let ks = [k0, k1, k2, 1];
         let nm = format!("popped keys {:?}", ks);
@@ -332,7 +376,7 @@ def run(out, tier, seed):
         text = STATIC + REBIND_PRELUDE + "".join(tuple_src(k) for k in range(1, 7)) + "".join(fns)
         text += "fn main() {\n    std::panic::set_hook(Box::new(|_| {}));\n"
         if bi == 0:
-            text += "    options_and_results();\n    tries();\n    dependent_targets();\n    minmax();\n"
+            text += "    options_and_results();\n    argument_expressions();\n    tries();\n    dependent_targets();\n    minmax();\n"
         text += "".join(calls)
         text += "    println!(\"N\\t{}\", unsafe { EVALS });\n}\n"
         srcs.append(cx.write("c19_%03d.rs" % bi, text))
